@@ -76,12 +76,19 @@ class Feed:
                 {'kind': 'pos', 'icao': 'c00200', 'lat': LAT0 + 1.5 * D, 'lon': LON0 - 1.5 * D, 'alt': 21000, 'odd': 1},
                 {'kind': 'pos', 'icao': self.icao['S1'], 'lat': LAT0 + GEOM['S1'][0] * D - 0.01, 'lon': LON0 + GEOM['S1'][1] * D, 'alt': 11000, 'odd': 0},
                 {'kind': 'pos', 'icao': self.icao['S1'], 'lat': LAT0 + GEOM['S1'][0] * D - 0.01, 'lon': LON0 + GEOM['S1'][1] * D, 'alt': 11000, 'odd': 1}]
-        w1 = self.icao['W1']
-        for odd in (0, 1, 0):
-            late.append({'kind': 'pos', 'icao': w1, 'lat': LAT0 - 0.5 * D, 'lon': LON0 - 1.5 * D, 'alt': 16000, 'odd': odd})
+        # MOVER flies east in four 4.5 km steps (consecutive reports stay pairable) and ends at the mirror image of STILL
+        # about the north-south axis: its label must be where it is NOW, not where it was one report ago
+        late.append({'kind': 'ident', 'icao': 'c00210', 'callsign': 'STILL'})
+        for odd in (0, 1):
+            late.append({'kind': 'pos', 'icao': 'c00210', 'lat': LAT0 + 1.5 * D, 'lon': LON0 + 0.5 * D, 'alt': 22000, 'odd': odd})
+        late.append({'kind': 'ident', 'icao': 'c00211', 'callsign': 'MOVER'})
+        for k in (3, 2, 1, 0):
+            for odd in (0, 1):
+                late.append({'kind': 'pos', 'icao': 'c00211', 'lat': LAT0 + 1.5 * D, 'lon': LON0 - 0.5 * D - 0.05 * k, 'alt': 23000, 'odd': odd})
         self.geom_late = dict(GEOM)
-        self.geom_late['W1'] = (-0.5, -1.5)
         self.geom_late['LATE'] = (1.5, -1.5)
+        self.geom_late['STILL'] = (1.5, 0.5)
+        self.geom_late['MOVER'] = (1.5, -0.5)
         self.late_lines = [(x + '\n').encode() for x in e4lib.mkfeed(late)]
         self.late_bytes = b''.join(self.late_lines)
         self.table_late = e4lib.feed2table(self.bytes + self.late_bytes)
@@ -353,16 +360,22 @@ def judge(script, obs):
         if script.get('geom_late') and m2:
             # after reset the map shows the late traffic too: the moved aircraft and the new one where they are NOW
             gl = {k: tuple(v) for k, v in script['geom_late'].items()}
-            mp2 = e4screen.parse_map(m2['lines'], list(script['labels']) + ['LATE'])
+            mp2 = e4screen.parse_map(m2['lines'], list(script['labels']) + ['LATE', 'STILL', 'MOVER'])
             if mp2 is None:
                 probs.append('map2:no-map')
             else:
                 pos2 = {n: p for n, p in mp2['labels'].items() if not isinstance(p[0], str)}
                 facts['labels_after_late'] = len(pos2)
-                for need in ('LATE', 'W1', 'W2'):
+                for need in ('LATE', 'STILL', 'MOVER'):
                     if need not in pos2:
                         probs.append('map2:label-missing-after-late(%s)' % need)
                 check_order(pos2, True, probs, 'map2', gl)
+                if 'STILL' in pos2 and 'MOVER' in pos2:
+                    ac2 = mp2['axis_col']
+                    ds, dm = pos2['STILL'][0] - ac2, ac2 - pos2['MOVER'][0]
+                    # labels are printed from their first character: both offsets are measured from the label start
+                    if abs(ds - dm) > 1 or abs(pos2['STILL'][1] - pos2['MOVER'][1]) > 1:
+                        probs.append('map2:moved-aircraft-not-at-current-position(STILL=%s,MOVER=%s,axis=%s)' % (pos2['STILL'], pos2['MOVER'], ac2))
         if script.get('expect_after') is None and m0 and m2 and m0['lines'] != m2['lines']:
             diff = [i for i, (a, b) in enumerate(zip(m0['lines'], m2['lines'])) if a != b]
             probs.append('map2:reset-differs-from-initial(lines %s)' % diff[:4])
